@@ -1920,10 +1920,15 @@ func (app *App) repairCascadeNode(node *mysql.Node, clusterState map[string]*nod
 	cnc := cascadeTopology[host]
 
 	if state.SlaveState == nil {
-		app.logger.Warn().Msgf("repair: current Slave/Replica Status is unknown. Blindly change master on %s to '%s'", host, cnc.StreamFrom)
-		err := app.performChangeMaster(host, cnc.StreamFrom)
+		streamFrom := cnc.StreamFrom
+		if streamFrom == host {
+			// a self-reference can only come from a hand-edited configuration: fall back to the master
+			streamFrom = master
+		}
+		app.logger.Warn().Msgf("repair: current Slave/Replica Status is unknown. Blindly change master on %s to '%s'", host, streamFrom)
+		err := app.performChangeMaster(host, streamFrom)
 		if err != nil {
-			app.logger.Warn().Msgf("repair: failed to change master on host %s to new value %s", host, cnc.StreamFrom)
+			app.logger.Warn().Msgf("repair: failed to change master on host %s to new value %s", host, streamFrom)
 			return
 		}
 		err = node.StartSlave()
